@@ -11,8 +11,20 @@ sec = '''## 10. Seeded changes (independent sub-agents) and which checks catch t
 Each change was written by a fresh sub-agent that saw only the property text and a scratch worktree (nothing from
 `/verif`), asked for a realistic change that needs something specific to manifest, and kept only after I confirmed in
 the scratch worktree that the repository's suite still passes with it and that its demonstration fails with / passes
-without it (`tools/confirm_seed.sh`). Detection was measured with `tools/try_seed.sh` (apply to `/repo`, run the quick
-tier, undo). Files: `/verif/seeded/<name>/{patch.diff, demo.py, meta.json}`.
+without it (`tools/confirm_seed.sh`). Detection was measured with `tools/try_seed.sh` (the patch is applied to a scratch
+copy of `/repo/src`, the quick tier runs against it through `VERIF_REPO`; `/repo` is never touched). Files:
+`/verif/seeded/<name>/{patch.diff, demo.py, meta.json}`; `tools/all_seeds.sh` re-runs the whole table.
+
+Rounds: round 1 (`-1`, 20 changes), round 2 (`-2`, 20 changes; each prompt named the round-1 change and asked for another
+location, another kind of mistake and another clause of the statement), round 3 (`-3`, 20 changes; prompts named both
+earlier ones). First-try detection by the quick tier: round 1 16/20, round 2 13/20, round 3 14/20 (13 by the property's
+own check, C01-3 by C03 - see its row). Every miss was a *reach* gap of a generator, never an oracle that accepted a wrong
+result, and was closed by adding the missing dimension (the "detected by" column says which): repeated items, numpy
+scalars, re-added reaction objects, detached bounds, operator-like gene ids, zero coefficients for new metabolites,
+optlang Objective objects, interface switches of populated models, rule objects rewritten in place after they were
+evaluated, an objective row that binds below the optimum, solver history. Two changes stay undetected by construction
+and are documented as such: C03-2 (superseded: the repository fix 3c235ca removed the code path) and C05-2 (masked by
+known finding `loopless-fva-inexact`).
 
 | name | property | change | needs | detected by |
 |---|---|---|---|---|
